@@ -120,8 +120,36 @@ def job_color(job):
     return res
 
 
+def length_witnesses(cond, model, native, probe):
+    """content lengths worth replaying for a failed obligation over `content_len`: the model's value and the neighbours of
+    every constant in the obligation (a limit shows as a comparison against a constant); probe(n) -> True if the export
+    misbehaves natively for a content of n digits"""
+    cands = []
+    seen = set()
+    stack = [cond]
+    while stack:
+        x = stack.pop()
+        if isinstance(x, int):
+            if 0 < x < (1 << 16):
+                cands += [x + 1, x, x - 1]
+            continue
+        if x.id in seen:
+            continue
+        seen.add(x.id)
+        if x.op == 'const':
+            stack.append(x.val)
+        else:
+            stack.extend(x.args)
+    cands = [(model or {}).get('content_len', 4)] + sorted(set(cands))
+    for n in cands:
+        if 0 <= n <= 8000 and probe(n):
+            return n
+    return None
+
+
 def job_qr_svg(job):
-    has_size, has_pos, has_image, seed = job
+    has_size, has_pos, has_image, seed = job[:4]
+    opaque = len(job) > 4 and job[4]
     prog = worker_prog()
     extra = worker_extra()
     res = {'evaluations': 0, 'obligations': 0, 'discharged': 0, 'failures': [], 'nontrivial': [], 'samples': [],
@@ -155,10 +183,20 @@ def job_qr_svg(job):
     I.write(opts, 6, I.lib.new_string(img_items))
     content = [T.zext(8, 32, T.var('c%d' % i, 8, below=128)) for i in range(4)]
     cbuf = I.mk(list(content), 'StrBuf')
+    carg = SliceRef(cbuf, 0, 4, True)
+    if opaque:
+        # content of arbitrary length (the length is a free 64-bit value <= 2^24), bytes not modelled: any decision the
+        # export takes on the length alone (a limit, an empty-input shortcut) shows up against the build outcome
+        clen = T.var('content_len', 64, below=1 << 24)
+        carg = M.OpaqueSlice('content', clen, True)
     ok = T.var('build_ok', 1)
+
+    def same_content(a):
+        return (a is carg) if opaque else (type(a) is SliceRef and a.c is cbuf and a.start == 0 and a.len == 4)
 
     def stub_new(I_, args):
         log['new'] = list(args)
+        log['new_pc'] = tuple(I_.pc)
         qr = I_.mk(['the qr code'], 'opaque')
         return I_.mk([T.zext(1, 64, T.lnot(ok)), {0: I_.mk([qr]), 1: I_.mk([0])}], 'symenum')
 
@@ -170,30 +208,29 @@ def job_qr_svg(job):
     I.stubs['SvgBuilder::to_str'] = stub_to_str
     panic_msg = None
     try:
-        r = I.call_fn(prog.resolve('qr_svg'), [SliceRef(cbuf, 0, 4, True), opts])
+        r = I.call_fn(prog.resolve('qr_svg'), [carg, opts])
     except M.ConcretePanic as e:
         # a panic reached on every path (empty path condition): the entry point traps for this option state
         r = M.DEAD
         panic_msg = str(e)
-    name = 'qr_svg(image_size %s, image_position %s, image %s)' % ('set' if has_size else 'unset', 'set' if has_pos else 'unset', 'set' if has_image else 'empty')
+    name = 'qr_svg(image_size %s, image_position %s, image %s%s)' % ('set' if has_size else 'unset', 'set' if has_pos else 'unset', 'set' if has_image else 'empty',
+                                                                   ', content of arbitrary length' if opaque else '')
     obl = []
     if r is M.DEAD:
         obl.append(('%s returns without panicking%s' % (name, (' (%s)' % panic_msg[:80]) if panic_msg else ''), 0))
     else:
         obl.append(('QRCode::new is called with the content bytes, the level and version options and no forced mode/mask',
-                    1 if ('new' in log and log['new'][0].c is cbuf and log['new'][3][0] == 0 and log['new'][4][0] == 0) else 0))
+                    1 if ('new' in log and same_content(log['new'][0]) and log['new'][3][0] == 0 and log['new'][4][0] == 0) else 0))
+        if 'new_pc' in log:
+            obl.append(('QRCode::new is called for every content (no decision on the content before the build)', T.and_many(list(log['new_pc']))))
         if 'new' in log:
             obl.append(('level option forwarded', T.land(T.eq(64, log['new'][1][0], T.zext(1, 64, ecl_some)), T.implies(ecl_some, T.eq(8, log['new'][1][1], ecl_v)))))
             obl.append(('version option forwarded', T.land(T.eq(64, log['new'][2][0], T.zext(1, 64, ver_some)), T.implies(ver_some, T.eq(8, log['new'][2][1], ver_v)))))
         items_r = list(r[0])
         txt_ok = T.ite(32, ok, ord('S'), 0)
         # result: the rendering when the build succeeded, the empty string otherwise
-        flat = []
-        for it in items_r:
-            if type(it) is Guarded:
-                flat += [(it.cond, x) for x in it.items]
-            else:
-                flat.append((1, it))
+        from checks import svgdrv as S0
+        flat = S0.flatten(items_r)
         obl.append(('returns the rendering iff the content could be encoded, else the empty string',
                     1 if (len(flat) == 3 and all(type(x) is int for _, x in flat)) else 0))
         for g, x in flat:
@@ -254,7 +291,21 @@ def job_qr_svg(job):
         key = 'C17/qr_svg.position-guard' if (has_size != has_pos) else 'C17/qr_svg'
         confirmed, what, req = False, '%s: %s (not reproduced natively)' % (name, lab), ''
         content = b'test'
-        base = native.ask('build %s - - - -' % OV.hexs(content))
+        if opaque:
+            def probe(nd):
+                c_ = b'7' * nd
+                built = 'data' in OV.parse_fields(native.ask('build %s - - - -' % OV.hexs(c_)))
+                a_ = native.ask('wasm_svg %s margin=4' % OV.hexs(c_))
+                return a_.startswith('PANIC') or a_ == 'ABORT' or (built != (a_ not in ('-', '')))
+            cond_of = dict(obl + pan)
+            nd = length_witnesses(cond_of.get(lab.split(' [witness')[0], 0), model, native, probe)
+            if nd is not None:
+                res['failures'].append({'key': 'C17/qr_svg.content-length', 'confirmed': True, 'obligation': lab,
+                                        'what': '%s: for a content of %d digits the native build %s but the export returns %s (%s)' % (
+                                            name, nd, 'succeeds' if 'data' in OV.parse_fields(native.ask('build %s - - - -' % OV.hexs(b'7' * nd))) else 'fails',
+                                            'the empty string' if native.ask('wasm_svg %s margin=4' % OV.hexs(b'7' * nd)) in ('-', '') else 'a document', lab),
+                                        'replay': {'request': 'wasm_svg %s margin=4' % ('37' * nd)}})
+                continue
         fb = OV.parse_fields(base)
         mod = fb['data']
         vq = int(fb['version'])
@@ -298,7 +349,8 @@ def job_qr_svg(job):
 
 
 def job_qr(job):
-    v, seed = job
+    v, seed = job[:2]
+    opaque = len(job) > 2 and job[2]
     prog = worker_prog()
     extra = worker_extra()
     res = {'evaluations': 0, 'obligations': 0, 'discharged': 0, 'failures': [], 'nontrivial': [], 'samples': [],
@@ -314,6 +366,7 @@ def job_qr(job):
 
     def stub_new(I_, args):
         log['new'] = list(args)
+        log['new_pc'] = tuple(I_.pc)
         cells = [I_.mk([T.bor(8, types[i], T.zext(1, 8, vals[i]))], 'Module') for i in range(n * n)]
         cells += [I_.mk([0], 'Module') for _ in range(177 * 177 - n * n)]
         qr = I_.mk([I_.mk(cells), n, I_.mk([0], 'enum'), I_.mk([0], 'enum'), I_.mk([0], 'enum'), I_.mk([0], 'enum')], 'QRCode')
@@ -321,13 +374,19 @@ def job_qr(job):
     I.stubs['QRCode::new'] = stub_new
     content = [T.zext(8, 32, T.var('c%d' % i, 8, below=128)) for i in range(3)]
     cbuf = I.mk(list(content), 'StrBuf')
-    r = I.call_fn(prog.resolve('qr'), [SliceRef(cbuf, 0, 3, True)])
+    carg = SliceRef(cbuf, 0, 3, True)
+    if opaque:
+        carg = M.OpaqueSlice('content', T.var('content_len', 64, below=1 << 24), True)
+    r = I.call_fn(prog.resolve('qr'), [carg])
     obl = []
     if r is M.DEAD:
         obl.append(('qr returns', 0))
     else:
         a = log.get('new')
-        obl.append(('QRCode::new(content bytes, None, None, None, None)', 1 if (a and a[0].c is cbuf and a[0].len == 3 and all(a[i][0] == 0 for i in (1, 2, 3, 4))) else 0))
+        same = a and ((a[0] is carg) if opaque else (type(a[0]) is SliceRef and a[0].c is cbuf and a[0].len == 3))
+        obl.append(('QRCode::new(content bytes, None, None, None, None)', 1 if (same and all(a[i][0] == 0 for i in (1, 2, 3, 4))) else 0))
+        if 'new_pc' in log:
+            obl.append(('QRCode::new is called for every content (no decision on the content before the build)', T.and_many(list(log['new_pc']))))
         buf = r[0] if r.tag == 'Vec' else None
         if buf is None:
             obl.append(('result is a byte vector', 0))
@@ -336,12 +395,8 @@ def job_qr(job):
             # shape: size*size entries when Ok, none when Err
             if len(items) == n * n and all(type(x) is not Guarded for x in items):
                 obl.append(('length', 0))      # unconditional content cannot be empty on Err
-            flat = []
-            for it in items:
-                if type(it) is Guarded:
-                    flat += [(it.cond, x) for x in it.items]
-                else:
-                    flat.append((1, it))
+            from checks import svgdrv as S0
+            flat = S0.flatten(items)
             obl.append(('size*size entries', 1 if len(flat) == n * n else 0))
             for i, (g, x) in enumerate(flat[:n * n]):
                 obl.append(('entry %d present iff the content could be encoded' % i, T.eq(1, g, ok)))
@@ -360,6 +415,19 @@ def job_qr(job):
     native = OV.Native(extra['native'])
     for lab, model in fails[:1]:
         txt = b'HELLO'
+        if opaque:
+            def probe(nd):
+                c_ = b'7' * nd
+                fb_ = OV.parse_fields(native.ask('build %s - - - -' % OV.hexs(c_)))
+                a_ = native.ask('wasm_qr %s' % OV.hexs(c_))
+                want_ = bytes(x & 1 for x in bytes.fromhex(fb_['data'])).hex() if 'data' in fb_ else ''
+                return a_.startswith('PANIC') or a_ == 'ABORT' or (a_ if a_ != '-' else '') != want_
+            nd = length_witnesses(dict(obl + pan).get(lab.split(' [witness')[0], 0), model, native, probe)
+            res['failures'].append({'key': 'C17/qr.content-length', 'confirmed': nd is not None, 'obligation': lab,
+                                    'what': ('qr(content of %d digits) differs from the value bits of the native default build (%s)' % (nd, lab)) if nd is not None
+                                    else 'not reproduced: %s' % lab,
+                                    'replay': {'request': 'wasm_qr %s' % ('37' * (nd or 0))}})
+            continue
         ans = native.ask('wasm_qr %s' % OV.hexs(txt))
         b = native.ask('build %s - - - -' % OV.hexs(txt))
         f = OV.parse_fields(b)
@@ -448,11 +516,13 @@ def main(argv):
                     continue
                 jobs.append((which, n, has_hash, chk.seed))
     chk.jobs(job_color, jobs, extra={'native': native_path})
-    chk.jobs(job_qr_svg, [(a, b, c, chk.seed) for a in (False, True) for b in (False, True) for c in (False, True)], extra={'native': native_path})
-    chk.jobs(job_qr, [(v, chk.seed) for v in ([0, 1] if chk.tier == 'quick' else [0, 1, 2, 6, 20])], extra={'native': native_path})
+    chk.jobs(job_qr_svg, [(a, b, c, chk.seed) for a in (False, True) for b in (False, True) for c in (False, True)]
+             + [(False, False, False, chk.seed, True), (True, True, True, chk.seed, True)], extra={'native': native_path})
+    chk.jobs(job_qr, [(v, chk.seed) for v in ([0, 1] if chk.tier == 'quick' else [0, 1, 2, 6, 20])] + [(0, chk.seed, True)], extra={'native': native_path})
     chk.jobs(job_setters, [0], extra={'native': native_path})
     chk.bounds += ['colour strings: every ASCII string of length 0..%d (characters symbolic), with and without leading #' % maxlen,
                    'qr_svg: 8 option states (image_size, image_position, image each set/unset) x symbolic colours, margin, level/version options, floats, build outcome',
+                   'qr_svg and qr additionally with a content of arbitrary length (length a free value <= 2^24, bytes not modelled)',
                    'qr: QRCode::new uninterpreted (arbitrary outcome, arbitrary module values) for sizes 21, 25 (quick)']
     chk.outside += ['non-ASCII colour strings (the byte-level UTF-8 view of a String is not modelled symbolically; a concrete non-ASCII string is replayed natively)',
                     'colour vectors / position vectors of other lengths than the setters can store (the fields are private)',
